@@ -39,7 +39,7 @@ def setup():
     jobs += [(inject_export, ("ctxfill", 0)), (common.export, ("expand_fixtures", "fixtures", 0)), (common.export, ("templates_3", "templates", 3)),
              (common.export, ("escapes_2", "escapes", 2)), (common.export, ("sizefix", "sizefix", 0)), (common.export, ("spell_ctxfill_0", "spell", 0, "ctxfill")),
              (common.export, ("spell_case_3", "spell", 3, "case")), (common.export, ("vocab_1", "vocab", 1)), (common.export, ("vocab_2", "vocab", 2)),
-             (common.export, ("amp", "amp", 0))]
+             (common.export, ("amp", "amp", 0)), (common.export, ("stress", "stress", 0))]
     with ThreadPoolExecutor(max_workers=8) as ex:
         for f in [ex.submit(fn, *args) for fn, args in jobs]:
             f.result()
@@ -730,7 +730,7 @@ def c05(ctx):
 @check("C06")
 def c06(ctx):
     ctx.rule = ("inputs = every sequence of up to N fragments of the 111-fragment vocabulary of Contract.tla (exported by TLC), the amplification family "
-                "opener^k body closer^k for k in {64, 1000, 100000}, seeded random longer sequences and mutations of valid patterns; each is passed to "
+                "opener^k body closer^k for k in {64, 1000, 100000}, 30 construct templates x 17 huge-count / huge-index stressors, seeded random longer sequences and mutations of valid patterns; each is passed to "
                 "Regex::new in a child process (debug build: overflow checks on; 2 GiB address-space limit; CPU limit) under catch_unwind; TLC checks the "
                 "contract on every recorded outcome (Ok or Err, error position <= length, time budget); a dead child is the outcome `abort` of the input "
                 "it was processing; distinct non-trivial = inputs that reach an Err or compile (all do, by the contract)")
@@ -738,6 +738,7 @@ def c06(ctx):
     n = 2 if ctx.quick else 3
     vocab = read_ndjson(common.export("vocab_%d" % n, "vocab", n, timeout=3600))
     amp = read_ndjson(common.export("amp", "amp", 0))
+    stress = read_ndjson(common.export("stress", "stress", 0))
     voc = [v["toks"][0] for v in read_ndjson(common.export("vocab_1", "vocab", 1)) if v["toks"]]
     rnd = []
     for i in range(6000 if ctx.quick else 200000):
@@ -758,7 +759,7 @@ def c06(ctx):
         mut.append(dict(id=i + 1, toks=t))
     known = {w["what_key"]: f for f in common.open_findings("C06") for w in f.get("witnesses", []) if w.get("kind") == "compile"}
     d = common.workdir("C06")
-    for name, recs in (("vocab_le%d" % n, vocab), ("amplified", amp), ("random", rnd), ("mutations", mut)):
+    for name, recs in (("vocab_le%d" % n, vocab), ("amplified", amp), ("stressors", stress), ("random", rnd), ("mutations", mut)):
         outs = compilep.run_inputs(ctx, name, recs)
         shards = 16 if len(outs) > 5000 else 2
         prefix = os.path.join(d, name + ".out")
